@@ -5,6 +5,8 @@ Trace-acceptance driver for the condition-variable model (C14).  One line in -> 
   ev <event> <args..>         -> ok | disabled <event>        (event must be enabled in the model)
   obs owner=.. 0:.. 1:..      -> obs <model's observable state for the same tids>
   chk exit t ret|raise k      -> ok | mismatch <model's record>  (last exit record of wait() of t)
+  chk woken t1,t2,..|-        -> ok | mismatch ..   (observed order of resolution of the last notify must be a
+                                                     subsequence of the model's walk order)
   chk wfexit t ret|raise k    -> same for wait_for
 
 Run:  lake env lean --run Drivers/Cond.lean < trace.txt
@@ -16,6 +18,7 @@ open Asynkit.Cond
 structure DSt where
   s : State := init .pc
   dead : Bool := false      -- an event was not enabled: everything after it is reported
+  woken : List Nat := []    -- futures set by the last notify event, in the order the model's walk set them
 
 def showFut : Fut → String
   | .pending => "pending" | .done => "done" | .cancelled => "cancelled"
@@ -67,6 +70,11 @@ def chkExit (s : State) (t : Nat) (wf : Bool) (o : Out) : String :=
       if x.ownerAt = some t then "ok" else "mismatch owner"
     else s!"mismatch {showOut x.out}"
 
+def isSubseq : List Nat → List Nat → Bool
+  | [], _ => true
+  | _ :: _, [] => false
+  | a :: as, b :: bs => if a == b then isSubseq as bs else isSubseq (a :: as) bs
+
 def stepLine (d : DSt) (line : String) : DSt × String :=
   match (line.trimAscii.toString.splitOn " ").filter (· != "") with
   | ["reset", "pc"] => ({ s := init .pc }, "ok")
@@ -76,14 +84,24 @@ def stepLine (d : DSt) (line : String) : DSt × String :=
     match parseEvent rest with
     | none => ({ d with dead := true }, "bad-event")
     | some e =>
+      let wk := match e with
+        | .notify _ n => (notifyFn d.s.kind n d.s.w d.s.queue).2
+        | .notifyAll _ => (notifyFn d.s.kind d.s.queue.length d.s.w d.s.queue).2
+        | _ => d.woken
       match step d.s e with
       | none => ({ d with dead := true }, "disabled " ++ " ".intercalate rest)
-      | some s' => ({ d with s := s' }, "ok")
+      | some s' => ({ d with s := s', woken := wk }, "ok")
   | "obs" :: rest =>
     if d.dead then (d, "dead") else
     let tids := rest.filterMap fun tok =>
       if tok.startsWith "owner=" then none else (tok.splitOn ":").head?.bind String.toNat?
     (d, "obs " ++ showObs d.s tids)
+  | ["chk", "woken", l] =>
+    if d.dead then (d, "dead") else
+    -- the observed resolution order (waiters that still had a wake-up callback) must be a subsequence of
+    -- the order in which the model's walk set the futures
+    let obs := if l == "-" then [] else (l.splitOn ",").filterMap String.toNat?
+    (d, if isSubseq obs d.woken then "ok" else s!"mismatch model order {d.woken}")
   | "chk" :: "exit" :: t :: rest =>
     if d.dead then (d, "dead") else
     match t.toNat?, parseOut rest with
